@@ -298,6 +298,11 @@ def make_specs():
         if sp.name in ("put", "get", "remove"):
             sp.prop = PROP
             out.append(sp)
+    # 'every change notification read from the kernel': the decoder of a read batch (C20's contract) is re-verified here
+    from specs import c20
+    dec = c20.InotifyParse(c20.BufWorld())
+    dec.prop = PROP
+    out.append(dec)
     return out
 
 
